@@ -34,9 +34,12 @@ def ambiguous(val):
     return f.denominator & (f.denominator - 1) != 0 or Fraction(1) / f != val.length
 
 
-def midi_vocabulary(whole_ticks_only=False):
+def midi_vocabulary(whole_ticks_only=False, zero_ticks=False):
     vs = MU.vocabulary(bases=(1, 2, 4, 8, 16, 32, 64, 128), dots=(0, 1, 2), tuplets=((3, 2), (5, 4), (7, 4)))
     vs = [v for v in vs if not ambiguous(v) and ticks_of(v) >= 1]
+    if zero_ticks:
+        # values so short that round(288 / value) is 0: the entry takes no time at all (note-on and note-off on one tick)
+        vs += [MU.Val(576), MU.Val(1024), MU.Val(2048)]
     if whole_ticks_only:
         vs = [v for v in vs if (v.length * 288).denominator == 1]
     # values outside the dotted / tuplet vocabulary that still last a whole number of ticks: 288/k as a float, and vocabulary
